@@ -117,6 +117,9 @@ var vC09Tmpls = []vC09Tmpl{
 	{[]int{1, 0}, []int{0}, "key >= ''", "ab", "ab", nil},
 	{[]int{2}, []int{8, 7}, "key >= ''", "ab", "019", nil},
 	{nil, []int{0}, "key = 'zz'", "ab", "01", func(k, v []byte) bool { return false }},
+	// all byte values: whatever byte an implementation might use to separate tuple members can occur in the data
+	{[]int{0, 1}, []int{0}, "key >= ''", "", "", nil},
+	{[]int{1, 0}, []int{0}, "key >= ''", "", "", nil},
 }
 
 func VN_C09(tier int) int { return len(vC09Tmpls) }
